@@ -89,7 +89,8 @@ impl Engine for C05 {
     fn rule(&self) -> String {
         "histories of keyed writes (one-shot / options with long metadata), raw index inserts, removals and foreign records over a small \
          alphabet, enumerated exhaustively up to the stated length, plus random histories over up to 8 hostile keys; after EVERY step every \
-         key of the pool is looked up through metadata (sync+async), index::find*, read* and judged against the reference model. \
+         key of the pool is looked up through metadata (sync+async), index::find*, read* and judged against the reference model; a sixth of the histories is mirrored step by step, with every value replaced by the pool's next one, into a second cache \
+         used by the same process (judged by a model of its own: the same keys mean something else there). \
          Non-trivial = some key received >=2 records of different length, or remove then re-insert, or a foreign record sits in a looked-up bucket; \
          distinct = distinct history"
             .into()
@@ -278,7 +279,7 @@ impl Engine for C05 {
     }
     fn exhaustive_note(&self, tier: Tier) -> String {
         format!(
-            "all histories of length 1..={} over a 14-symbol alphabet (2 keys + 1 never-written key, 3 values, sync and async); block-boundary, index-neighbour and long single-key histories; 24 histories that grow a bucket past 1 MiB, delete or tombstone it and grow it again, observed at marked points only; 2 histories of thousands of small records on one key observed around round record counts{}",
+            "all histories of length 1..={} over a 14-symbol alphabet (2 keys + 1 never-written key, 3 values, sync and async); block-boundary, index-neighbour and long single-key histories; 24 histories that grow a bucket past 1 MiB, delete or tombstone it and grow it again, observed at marked points only (a sixth of all histories is mirrored, with other values, into a second cache of the same process); 2 histories of thousands of small records on one key observed around round record counts{}",
             tier.pick(3, 4),
             tier.pick("", "; all length-5 histories over a 6-symbol sub-alphabet")
         )
@@ -297,7 +298,31 @@ impl Engine for C05 {
         let mut records: std::collections::HashMap<usize, Vec<usize>> = Default::default();
         let mut removed: std::collections::HashSet<usize> = Default::default();
         let mut nontrivial = false;
+        // a sixth of the cases: a SECOND cache used by the same process receives the same
+        // history with every value replaced by the pool's next one, step by step ahead of the
+        // first cache — the same keys mean something else there, and nothing about one cache
+        // may show in the other
+        let twin = prog.steps.len() <= 400 && (hash_of(prog) >> 17) % 6 == 0;
+        let shadow_dir = env.scratch.root.join("shadow-cache");
+        let shadow_scratch = env.scratch.root.join("shadow-scratch");
+        let _ = std::fs::remove_dir_all(&shadow_dir);
+        let _ = std::fs::remove_dir_all(&shadow_scratch);
+        if twin {
+            std::fs::create_dir_all(&shadow_dir).map_err(|e| format!("INFRA: {e}"))?;
+            std::fs::create_dir_all(&shadow_scratch).map_err(|e| format!("INFRA: {e}"))?;
+            st.class("second_cache_with_other_values_in_the_same_process");
+        }
+        let sctx = Ctx::new(shadow_dir.clone(), shadow_scratch.clone(), &prog.keys, &prog.blobs);
+        let mut smodel = Model::new();
+        let nb = prog.blobs.len().max(1);
         for (i, step) in prog.steps.iter().enumerate() {
+            if twin {
+                let mut sstep = step.clone();
+                basic::remap_op(&mut sstep.op, &|k| k, &|b| (b + 1) % nb);
+                let r = run_step(&sctx, &sstep);
+                st.eval(1);
+                smodel.step(&sctx, &sstep, &r.out, r.t0, r.t1).map_err(|e| format!("second cache, {}: {e}", basic::describe_step(prog, i)))?;
+            }
             let r = run_step(&ctx, step);
             st.eval(1);
             model.step(&ctx, step, &r.out, r.t0, r.t1).map_err(|e| format!("{}: {e}", basic::describe_step(prog, i)))?;
@@ -334,6 +359,11 @@ impl Engine for C05 {
             if !quiet || i + 1 == prog.steps.len() {
                 basic::sweep_keys(&ctx, &mut model, st, true, i).map_err(|e| format!("after {}: {e}", basic::describe_step(prog, i)))?;
             }
+        }
+        if twin {
+            basic::sweep_keys(&sctx, &mut smodel, st, true, prog.steps.len()).map_err(|e| format!("second cache, at the end: {e}"))?;
+            let _ = std::fs::remove_dir_all(&shadow_dir);
+            let _ = std::fs::remove_dir_all(&shadow_scratch);
         }
         ctx.cache_is_same_dir()?;
         st.class(if prog.steps.iter().any(|s| matches!(s.op, Op::ForeignRecord { .. })) { "has_foreign_record" } else { "no_foreign_record" });
